@@ -8,7 +8,7 @@ def sh(cmd, cwd=None):
     return subprocess.run(cmd, shell=True, cwd=cwd, capture_output=True, text=True)
 
 def imp(prop, x, needs, confirmed):
-    src = f'/tmp/seedwt/{prop}/SEED_OUT'
+    src = os.environ.get('SEEDROOT','/tmp/seedwt') + f'/{prop}/SEED_OUT'
     dst = f'{V}/seeded/{prop}-{x}'
     os.makedirs(dst, exist_ok=True)
     shutil.copy(f'{src}/{x}.patch.diff', f'{dst}/patch.diff')
